@@ -2,6 +2,7 @@ import PqV.Drv.Proto
 import PqV.Impl.Kernels
 import PqV.Spec.Hybrid
 import PqV.Spec.Delta
+import PqV.Spec.Plain
 /- Drv.Kern — `kern.*` (code-shaped models) and `spec.*` (format specification) streams. -/
 namespace PqV.Drv
 open PqV.Impl PqV.Spec
@@ -59,6 +60,7 @@ def handleKern (op : String) (a : Args) : String :=
     match readPlainBoolean inp (a.nat "count") with
     | .ok v => s!"ok out={showNats v}"
     | .error f => showFault f
+  | "width_from_max_int" => s!"ok val={widthFromMaxInt (a.int "n")}"
   | "pack_bools" => s!"ok out={toHex (writerPackBools (a.nats "vals"))}"
   | _ => s!"err unknown-op kern {op}"
 
@@ -70,6 +72,7 @@ def handleSpec (op : String) (a : Args) : String :=
     match uvarintDec (inp.drop (a.nat "loc")) with
     | some (v, rest) => s!"ok val={v} loc={inp.length - rest.length}"
     | none => "err truncated"
+  | "width_for" => s!"ok val={widthFor (a.nat "n")}"
   | "zigzag_dec" => s!"ok val={zigzagDec (a.nat "n")}"
   | "zigzag_enc" => s!"ok val={zigzagEnc (a.int "n")}"
   | "unpack" => s!"ok out={showNats (unpackLE (a.nat "w") (a.nat "n") inp)}"
